@@ -162,7 +162,7 @@ def main(tier, replay=None):
         for t in ('', ' ', 'abc', '1x'):
             cases.append({'f': f, 'args': [enc(t), enc(2)]})
             cases.append({'f': f, 'args': [enc(2), enc(t)]})
-    obs = fncases.observe(lib, cases, literal=False)
+    obs = fncases.observe(lib, cases, literal=False, twins=True)
     so = suite.observations({'ABS','SQRT','EXP','LN','LOG','LOG10','POWER','SIN','COS','TAN','COT','ASIN','ACOS','ATAN','ACOT','SINH','COSH','TANH','ASINH','ACOSH','ATANH','ACOTH','ATAN2','RADIANS','DEGREES'}, len(obs) + 1)   # the same functions as the repository's own tests call them
     run.extra['calls_from_repository_tests'] = len(so)
     obs += so
